@@ -109,6 +109,18 @@ def storageStep (d : DState) (toks : List String) : Option (DState × String) :=
     match ofHex hex with
     | some b => some ({ d with disk := some b, coll := none }, "ok")
     | none => some (d, "bad-op")
+  | ["enc", quant, codes] =>
+    match quant.toNat?, parseNatList codes with
+    | some q, some cs => some (d, "bytes " ++ toHexW (encodeCodes q cs))
+    | _, _ => some (d, "bad-op")
+  | ["dec", quant, dim, hex] =>
+    match quant.toNat?, dim.toNat?, ofHex hex with
+    | some q, some n, some b =>
+      match decodeCodes q n b with
+      | .ok cs => some (d, "codes " ++ joinWith "," (cs.map toString))
+      | .err _ => some (d, "err")
+      | .panic _ => some (d, "panic")
+    | _, _, _ => some (d, "bad-op")
   | ["images"] =>
     some (d, "img " ++ joinWith ";" (d.images.map fun (l, b) => l ++ ":" ++ toString b.length ++ ":" ++ toString (fnv1a b).toNat))
   | ["useimage", k] =>
